@@ -16,7 +16,7 @@ func init() { register("C13", runC13) }
 func runC13(c *Ctx, tier string) {
 	r := NewReport("C13", "proof", tier, c)
 	r.Explanation = "(1) source-exhaustive: the decision tables of LintSource.FromString and LintSource.UnmarshalJSON are evaluated on the value of every declared LintSource constant and on undeclared strings: each declared source other than Unknown is accepted and stored as itself, everything else yields Unknown / an error — so whatever Registry.Sources() can list (registrations only use declared constants — checked) is accepted by the source-list parser and survives JSON; (2) source-list: the decision table of SourceList.FromString (loop unrolled twice) returns an error as soon as an entry parses to Unknown, skips blank entries and appends the parsed source otherwise; the CLI feeds -includeSources/-excludeSources through it into FilterOptions and propagates its error; (3) names: the decision table of lintNamesToMap consults all three lookups with the trimmed name, returns an error when none knows it and records the trimmed name otherwise; Filter passes both ExcludeNames and IncludeNames through it and returns its error; (4) profiles: every lint name literal in every RegisterProfile call is a registered lint name (census). JSON library mechanics are trusted."
-	r.Rule("source-exhaustive; source-list; cli-sources; names-validated; profiles-exist")
+	r.Rule("source-exhaustive; source-list; cli-sources; names-validated; profiles-exist; name-list-verbatim; filter-selection; filter-identity; filter-config")
 	r.Trusted = []string{"go/ssa", "strings.TrimSpace/Split", "encoding/json"}
 	r.Exhaustive = true
 
@@ -29,6 +29,12 @@ func runC13(c *Ctx, tier string) {
 	r.Floor("registrations", 370, len(cs.Regs))
 	c13RegSources(c, r, cs)
 	c13Profiles(c, r, cs)
+	c13NameList(c, r, cs)
+	// a listed name is accepted only if Filter, after validating it, also succeeds:
+	// its loop walks the (duplicate-free) registered names once and registers each
+	// selected lint once, so the "already registered" error cannot arise from a
+	// valid selection (the rules of C08, evaluated here as well)
+	filterChecks(c, r, false)
 	r.Finish()
 }
 
